@@ -4,7 +4,8 @@
      - gengo.sum changes only in the save step of a run or between runs            (C07 "gengo.sum only ...", C02)
      - while a run is in progress - and when it has failed or died - gengo.sum is what it was at the start of the run (C02)
      - a run never touches hand-written sources or user files                       (C07)
-     - a run changes generated files of the package being processed only            (C07)                              *)
+     - a run changes generated files of the package being processed only            (C07)
+     - after a successful All run gengo.sum is canonical and records exactly the load-time hashes of the local packages (C08) *)
 EXTENDS Pipeline, TLAPS
 
 SumInv == (pc \notin {"idle", "finish", "finished"}) => sum = snap0.sum
@@ -87,4 +88,42 @@ THEOREM OnlyCurrentPkg == ASSUME OutDom, Next, pc # "idle" PROVE \A p \in Pkgs :
   <2>11. CASE Reap BY <2>11 DEF Reap, fs
   <2> QED BY <1>3, <2>1, <2>2, <2>3, <2>4, <2>5, <2>6, <2>7, <2>8, <2>9, <2>10, <2>11 DEF Run
 <1> QED BY <1>1, <1>2, <1>3 DEF Next
+
+(* ---- after a successful All run gengo.sum is canonical and records exactly the load-time hashes (C08), given that the code
+        always rewrites the file (SaveAlways - the alternative is refuted by TLC, Pipeline_sib2_savedemo.cfg) *)
+ASSUME CodeSavesAlways == SaveAlways = TRUE
+
+SaveInv == (pc \in {"finish", "finished"} /\ args.all) => (sum.present /\ sum.canon /\ sum.m = hload)
+HloadInv == pc # "idle" => \A p \in Pkgs \ Local(args) : hload[p] = None
+Inv2 == SaveInv /\ HloadInv
+
+LEMMA InitInv2 == Init => Inv2
+  BY DEF Init, Inv2, SaveInv, HloadInv
+
+LEMMA StepInv2 == ASSUME Inv2, [Next]_vars PROVE Inv2'
+<1>0. CASE UNCHANGED vars BY <1>0 DEF Inv2, SaveInv, HloadInv, vars, Local
+<1>1. CASE Env BY <1>1, EnvFacts DEF Inv2, SaveInv, HloadInv
+<1>2. CASE \E a \in ArgsMenu : StartRun(a) BY <1>2 DEF StartRun, fs, Inv2, SaveInv, HloadInv, Local
+<1>3. CASE Run
+  <2>1. CASE SkipCached BY <2>1 DEF SkipCached, fs, Inv2, SaveInv, HloadInv, Local
+  <2>2. CASE BeginPkg BY <2>2 DEF BeginPkg, fs, Inv2, SaveInv, HloadInv, Local
+  <2>3. CASE Callback BY <2>3 DEF Callback, EndRun, fs, runctl, Inv2, SaveInv, HloadInv, Local
+  <2>4. CASE WriteOne BY <2>4 DEF WriteOne, EndRun, fs, runctl, Inv2, SaveInv, HloadInv, Local
+  <2>5. CASE WritesDone BY <2>5 DEF WritesDone, fs, runctl, Inv2, SaveInv, HloadInv, Local
+  <2>6. CASE RemoveOne BY <2>6 DEF RemoveOne, Inv2, SaveInv, HloadInv, Local
+  <2>7. CASE EndPkg BY <2>7 DEF EndPkg, fs, Inv2, SaveInv, HloadInv, Local
+  <2>8. CASE AllDone BY <2>8 DEF AllDone, fs, runctl, Inv2, SaveInv, HloadInv, Local
+  <2>9. CASE SaveSum BY <2>9, CodeSavesAlways DEF SaveSum, runctl, Inv2, SaveInv, HloadInv, Local
+  <2>10. CASE Finish BY <2>10 DEF Finish, EndRun, fs, runctl, Inv2, SaveInv, HloadInv, Local
+  <2>11. CASE Reap BY <2>11 DEF Reap, fs, Inv2, SaveInv, HloadInv, Local
+  <2> QED BY <1>3, <2>1, <2>2, <2>3, <2>4, <2>5, <2>6, <2>7, <2>8, <2>9, <2>10, <2>11 DEF Run
+<1> QED BY <1>0, <1>1, <1>2, <1>3 DEF Next
+
+THEOREM SpecInv2 == Spec => []Inv2
+<1>1. Init => Inv2 BY InitInv2
+<1>2. Inv2 /\ [Next]_vars => Inv2' BY StepInv2
+<1> QED BY <1>1, <1>2, PTL DEF Spec
+
+THEOREM Inv2 /\ DOMAIN hload = Pkgs => C08_SumAfterSuccess
+  BY DEF Inv2, SaveInv, HloadInv, C08_SumAfterSuccess
 =============================================================================
